@@ -26,7 +26,7 @@ class C12(fw.Property):
     id = "C12"
     coq_props = "Props/C12.v"
     gen_jobs = ["oscore_replay"]
-    model_imports = ["Verif.Gen.oscore_replay", "Verif.Model.C12"]
+    model_imports = ["Verif.Gen.oscore_replay", "Verif.Model.C12", "Verif.Model.C12Persist"]
     quick_budget = 500
     design_ref = "DESIGN.md section 17"
     technique = "Coq refinement proof (replay window -> seen-set) over code translated from source, induction over all arrival histories; differential correspondence for the unprotect flow"
@@ -93,7 +93,10 @@ class C12(fw.Property):
                     else: num = max(0, hi - rng.choice([30, 31, 32, 33, 34]))
                     hi = max(hi, num)
                     reqs.append({"seqno": num, "authentic": rng.random() < 0.8, "echo": rng.choice([None, None, ECHO_OK, ECHO_OK, ECHO_BAD])})
-                yield "unprotect_flow", {"initialized": init, "echo_recovery": have_echo, "reqs": reqs}
+                # round 7: in 40 % of the flows the server is stopped cleanly and reloaded before request `reload_at`
+                # (ReplayWindow.persist -> JSON -> new ReplayWindow.initialize_from_persisted, as _destroy/_load do)
+                reload_at = rng.randint(0, len(reqs)) if rng.random() < 0.4 else None
+                yield "unprotect_flow", {"initialized": init, "echo_recovery": have_echo, "reqs": reqs, "reload_at": reload_at}
         if tier == "thorough":
             # exhaustive small scope: all op sequences of length <= 4 over 0..5 for window sizes 1, 2 (validation of the tie, not a proof)
             import itertools
@@ -119,7 +122,13 @@ class C12(fw.Property):
         if inp["initialized"]: server.recipient_replay_window.initialize_empty()
         server.echo_recovery = echo_bytes(ECHO_OK) if inp["echo_recovery"] else None
         out = []
-        for r in inp["reqs"]:
+        for i, r in enumerate(inp["reqs"] + [None]):
+            if inp.get("reload_at") == i:
+                import json
+                persisted = json.loads(json.dumps(server.recipient_replay_window.persist()))
+                w2 = o.ReplayWindow(32, lambda: None); w2.initialize_from_persisted(persisted)
+                server.recipient_replay_window = w2
+            if r is None: break
             m = aiocoap.Message(code=aiocoap.GET, uri="coap://example.com/x")
             if r["echo"] is not None: m.opt.echo = echo_bytes(r["echo"])
             client.sender_sequence_number = r["seqno"]
@@ -195,6 +204,8 @@ class C12(fw.Property):
             return "let r := prun %s %s in (snd r, match window (fst r) with Some w => Some (rw_index w, rw_bitfield w) | None => None end)" % (c, ms)
         reqs = glist(["{| seqno := %s; authentic := %s; echo := %s |}" % (gz(r["seqno"]), gbool(r["authentic"]), gopt(r["echo"], gz)) for r in inp["reqs"]])
         c = "{| size := 32; window := %s; echo_recovery := %s |}" % ("Some (initialize_empty 32)" if inp["initialized"] else "None", "Some %s" % gz(ECHO_OK) if inp["echo_recovery"] else "None")
+        if inp.get("reload_at") is not None:
+            return "let r := run_reload %s %d%%nat %s in (snd r, match window (fst r) with Some w => Some (rw_index w, rw_bitfield w) | None => None end)" % (c, inp["reload_at"], reqs)
         return "let r := run %s %s in (snd r, match window (fst r) with Some w => Some (rw_index w, rw_bitfield w) | None => None end)" % (c, reqs)
     def decode(self, stream, inp, p):
         p = fw.plain(p)
